@@ -104,7 +104,7 @@ type sweepResult struct {
 }
 
 // sweep runs every component on every input under recover() and a watchdog.
-func sweep(comps []*component, inputs []input, par int, hangAfter time.Duration, onTokens func(*component, *input, analysis.TokenStream)) *sweepResult {
+func sweep(comps []*component, inputs []input, par int, hangAfter time.Duration, skip func(*component, *input) bool, onTokens func(*component, *input, analysis.TokenStream)) *sweepResult {
 	res := &sweepResult{}
 	var mu sync.Mutex
 	var wg sync.WaitGroup
@@ -128,6 +128,9 @@ func sweep(comps []*component, inputs []input, par int, hangAfter time.Duration,
 					go func(from int) {
 						defer close(done)
 						for i := from; i < len(inputs); i++ {
+							if skip != nil && skip(comp, &inputs[i]) {
+								continue
+							}
 							atomic.StoreInt64(&cur, int64(i))
 							atomic.StoreInt64(&stamp, time.Now().UnixNano())
 							ts, msg := callGuarded(comp, inputs[i].Bytes)
